@@ -1,4 +1,5 @@
 import GoSup.Spec.Http
+import GoSup.Spec.C08
 import GoSup.Model.HttpSeq
 import Driver.Util
 namespace Driver.Http
@@ -123,6 +124,15 @@ def handle : List String → Option String
   | "c14holds" :: rest => do let (i, t) ← parseAll rest; some (toString (holdsC14 i t))
   | "c08holds" :: rest => do let (i, t) ← parseAll rest; some (toString (holdsC08 i t))
   | "known" :: "C12-F1" :: rest => do let (i, t) ← parseAll rest; some (toString (knownC12F1 i t))
+  | "c08streamholds" :: rest => do
+    -- ss=<a>b>c> sb=<…> ret=<cls>:<state>|none closed=<0|1> single=<0|1>
+    let ss := ((kvOf rest "ss").getD "").splitOn ">" |>.filter (· ≠ "")
+    let sb := ((kvOf rest "sb").getD "").splitOn ">" |>.filter (· ≠ "")
+    let ret := (kvOf rest "ret").getD "none"
+    let (hasRet, cls, st) := match ret.splitOn ":" with
+      | [c, s] => (true, c, s)
+      | _ => (false, "", "")
+    some (toString (GoSup.Spec.C08.holdsStream ss sb hasRet cls st (kvOf rest "closed" == some "1") (kvOf rest "single" != some "0")))
   | "httpseq" :: rest => do let (i, t) ← parseAll rest; some (httpseq i t)
   | _ => none
 
